@@ -4,6 +4,7 @@
 From Coq Require Import List Bool Arith NArith.
 Import ListNotations.
 From GP Require Import Model.Utf8 Proofs.Utf8.
+From GP Require Model.Escape Model.Repr Proofs.Repr.
 
 Theorem C14_len_counts_code_points : forall cps, Forall scalar cps -> rune_count (encode cps) = length cps.
 Proof. exact rune_count_encode. Qed.
@@ -20,6 +21,22 @@ Theorem C14_slice_by_code_points : forall cps start stop, Forall scalar cps ->
   = encode (firstn (stop - start) (skipn start cps)).
 Proof. exact slice_encode. Qed.
 
+(* repr round-trips through the compiler, at the token level: for every string of scalar values -- and whatever
+   strconv.IsPrint answers for each character -- the text StringEscape produces (Model/Repr.v), followed by
+   anything, is read back by the lexer's end-of-literal scan and the escape decoder (Model/Escape.v) as exactly
+   that string, leaving exactly what followed.  (An empty literal directly followed by its own quote character
+   would open a triple-quoted string: excluded, and no repr of a container produces it.) *)
+Theorem C14_repr_eval_roundtrip : forall (printable : N -> bool) (s rest : list N),
+  Forall (fun c => Model.Escape.scalar c = true) s ->
+  (s = [] -> hd_error rest <> Some (Model.Repr.quote_of s)) ->
+  Model.Repr.eval_literal (Model.Repr.repr_str printable s ++ rest) = Some (s, rest).
+Proof. intros. apply Proofs.Repr.repr_roundtrip; assumption. Qed.
+
+Example C14_repr_nonvacuous :
+  Model.Repr.repr_str (fun c => N.eqb c 233) [97; 39; 233; 173; 10]%N = [34; 97; 39; 233; 92; 120; 97; 100; 92; 110; 34]%N /\
+  Model.Repr.eval_literal ([34; 97; 39; 233; 92; 120; 97; 100; 92; 110; 34] ++ [43; 49])%N = Some ([97; 39; 233; 173; 10], [43; 49])%N.
+Proof. vm_compute. split; reflexivity. Qed.
+
 Example C14_nonvacuous :
   let s := [97; 233; 8364; 128512; 98]%N in   (* a, e-acute, euro sign, grinning face, b *)
   rune_count (encode s) = 5%nat /\ length (encode s) = 11%nat /\
@@ -29,3 +46,4 @@ Proof. vm_compute. auto. Qed.
 Print Assumptions C14_len_counts_code_points.
 Print Assumptions C14_pos_is_prefix_width.
 Print Assumptions C14_slice_by_code_points.
+Print Assumptions C14_repr_eval_roundtrip.
